@@ -1,4 +1,4 @@
-import Eru.CpuMem.ProofsSpec
+import Eru.CpuMem.ProofsCommit
 /-
 C04 — allocations never overcommit a node's CPU cores or memory.
 Property theorems only; helper lemmas live in Eru/CpuMem/Proofs*.lean.
@@ -56,6 +56,35 @@ theorem plans_fit_memory (info : NodeInfo) (origin : CpuMap) (B maxShare : Int) 
     (h : getCPUPlans info origin B maxShare req order = .ok ps) :
     fitMemory info.available.mem req.mem ps.length = true :=
   getCPUPlans_fit_memory info origin B maxShare req order ps h
+
+/-- **commit_valid** (proved for nodes without NUMA topology; with NUMA the clause is checked on every
+    generated case by the oracle, `C04:commit`): for a valid node whose memory usage fits, a bound
+    deployment computed by `CalculateDeploy` and committed with `SetNodeResourceUsage` leaves a node
+    state that `Validate` accepts and whose memory usage still fits (C10's memory clause, which
+    `Validate` itself does not check). -/
+theorem commit_valid (info : NodeInfo) (B maxShare count : Int) (raw w : RawReq) (order : List String) (ws : List Workload)
+    (hB : 1 ≤ B) (hwf : WF info) (huk : info.use.cpuMap.keys.Nodup) (hord : order.Nodup)
+    (hval : info.validate = true) (hmv : memValid info = true) (hnuma : info.cap.numa = [])
+    (hraw : raw.validate = .ok w) (hbind : w.bind = true) (hmem : 0 ≤ w.memReq)
+    (h : calculateDeploy info B maxShare count raw order = .ok ws) :
+    ∃ info', commit info ws = .ok info' ∧ memValid info' = true := by
+  unfold calculateDeploy at h
+  rw [hraw] at h
+  simp only [hbind, if_true] at h
+  unfold allocByCPU at h
+  split at h
+  · rename_i plans hpl
+    split at h
+    · cases h
+    · split at h
+      · cases h
+      · cases h
+        apply commit_valid_nonnuma info [] B maxShare w.toReq order plans count.toNat _ hB hwf.1 huk hord hval hnuma hmem hmv hpl
+        · rw [List.map_map, ← List.map_take]; rfl
+        · intro x hx
+          obtain ⟨p, _, rfl⟩ := List.mem_map.mp hx
+          rfl
+  all_goals cases h
 
 /-- the D6 witness (node memory 100 with 90 used, NUMA memory 50/50, request 0.5 core / 20 memory;
     fragment requests avoid the heap, whose well-founded `up`/`down` the kernel does not unfold):
